@@ -5,6 +5,7 @@ package main
 // sets from which sources, which options it adds (in order), under which conditions.
 
 import (
+	"go/constant"
 	"encoding/json"
 	"fmt"
 	"go/token"
@@ -156,6 +157,23 @@ func (e *e6Ctx) effects(isObj func(ssa.Value) bool, depth int) ([]string, map[st
 					continue
 				}
 				fld := e.fieldPath(fa, isObj)
+				if al, isFresh := root.(*ssa.Alloc); isFresh && isZeroConst(x.Val) && !storePrecedes(al, fa, x) {
+					continue // the zero value of a field of a freshly allocated object: stating it or not is the same effect
+				}
+				// a value chosen by an if/else before the store (v := a; if c { v = b }; x.F = v) is the same effect as
+				// storing under the conditions: one conditional set per alternative
+				if ph, isPhi := x.Val.(*ssa.Phi); isPhi && !inCycle(ph.Block()) && ph.Block() == b {
+					base := e.conds(b, pre)
+					for i, ev := range ph.Edges {
+						pred := ph.Block().Preds[i]
+						al, isFresh := root.(*ssa.Alloc)
+						if isFresh && isZeroConst(ev) && !storePrecedes(al, fa, x) {
+							continue
+						}
+						lines = append(lines, mergeConds(base, e.edgeConds(pred, ph.Block(), pre))+"set "+fld+" := "+e.path(ev))
+					}
+					continue
+				}
 				lines = append(lines, e.conds(b, pre)+"set "+fld+" := "+e.path(x.Val))
 			case *ssa.Call:
 				cc := x.Common()
@@ -182,7 +200,27 @@ func (e *e6Ctx) effects(isObj func(ssa.Value) bool, depth int) ([]string, map[st
 						for _, a := range cc.Args {
 							as = append(as, e.argDesc(a))
 						}
-						lines = append(lines, e.conds(b, pre)+"call "+sf.Name()+"("+strings.Join(as, ", ")+")")
+						name := sf.Name()
+						// delegation transparency: a call of a pure delegation is the call it makes
+						for hop := 0; hop < 3; hop++ {
+							inner := delegationOf(sf)
+							if inner == nil {
+								break
+							}
+							sub := newE6(e.c, sf)
+							sub.depth, sub.allCalls = e.depth+1, e.allCalls
+							for i, p := range sf.Params {
+								if i < len(as) {
+									sub.px.subst[e.c.Sx().Of(p).String()] = as[i]
+								}
+							}
+							var as2 []string
+							for _, a := range inner.Call.Args {
+								as2 = append(as2, sub.argDesc(a))
+							}
+							sf, as, name = inner.Call.StaticCallee(), as2, inner.Call.StaticCallee().Name()
+						}
+						lines = append(lines, e.conds(b, pre)+"call "+name+"("+strings.Join(as, ", ")+")")
 					}
 					continue
 				}
@@ -649,4 +687,203 @@ func e6NormLines(ls []string) []string {
 	}
 	sort.Strings(out)
 	return dedupe(out)
+}
+
+// isZeroConst: the zero value of its type as a constant
+func isZeroConst(v ssa.Value) bool {
+	k, ok := v.(*ssa.Const)
+	if !ok {
+		return false
+	}
+	if k.Value == nil {
+		return true // nil pointer/slice/map/interface, zero struct
+	}
+	switch k.Value.Kind() {
+	case constant.Int:
+		n, exact := constant.Int64Val(k.Value)
+		return exact && n == 0
+	case constant.String:
+		return constant.StringVal(k.Value) == ""
+	case constant.Bool:
+		return !constant.BoolVal(k.Value)
+	case constant.Float:
+		f, _ := constant.Float64Val(k.Value)
+		return f == 0
+	}
+	return false
+}
+
+// storePrecedes: can another store to the same field of the fresh object al execute before st
+func storePrecedes(al *ssa.Alloc, fa *ssa.FieldAddr, st *ssa.Store) bool {
+	if al.Referrers() == nil {
+		return true
+	}
+	for _, ref := range *al.Referrers() {
+		f2, ok := ref.(*ssa.FieldAddr)
+		if !ok {
+			if _, isDbg := ref.(*ssa.DebugRef); isDbg {
+				continue
+			}
+			// the object escapes (call argument, store of the pointer …): something else may have written the field
+			if in, isIn := ref.(ssa.Instruction); isIn && in.Block() != nil && (in.Block() != st.Block() && reachFrom(in.Block(), nil, nil)[st.Block()] || in.Block() == st.Block() && instrIndex(in) < instrIndex(st)) {
+				if _, isRet := ref.(*ssa.Return); !isRet {
+					return true
+				}
+			}
+			continue
+		}
+		if f2.Field != fa.Field || f2.Referrers() == nil {
+			continue
+		}
+		for _, r2 := range *f2.Referrers() {
+			t, ok := r2.(*ssa.Store)
+			if !ok || t == st || t.Addr != ssa.Value(f2) {
+				continue
+			}
+			if t.Block() == st.Block() {
+				if instrIndex(t) < instrIndex(st) {
+					return true
+				}
+				continue
+			}
+			if reachFrom(t.Block(), nil, nil)[st.Block()] {
+				return true
+			}
+		}
+	}
+	return false
+}
+
+// delegationOf: f is a pure delegation — one block, one call of an in-module function whose results are returned
+// unchanged and in order, nothing else but the computation of that call's arguments (conversions, argument
+// lists, calls of functions outside the module such as context.Background()). Returns the inner call.
+// `New(mods…)` written as `return NewWithContext(context.Background(), mods…)` and `GenerateTransactionID()` written
+// as `return GenerateTransactionIDWithContext(context.Background())` are the instances on the pinned tree; E6
+// renders a call of such a function as the call it makes (delegation transparency), so that folding a function into a
+// call of its sibling, or unfolding it, leaves every fingerprint unchanged.
+func delegationOf(f *ssa.Function) *ssa.Call {
+	if f == nil || f.Blocks == nil || len(f.Blocks) != 1 || !inModule(f) || f.Parent() != nil {
+		return nil
+	}
+	var inner *ssa.Call
+	var ret *ssa.Return
+	ok := true
+	for _, in := range f.Blocks[0].Instrs {
+		switch t := in.(type) {
+		case *ssa.Call:
+			if _, isB := t.Call.Value.(*ssa.Builtin); isB {
+				ok = false
+				continue
+			}
+			sf := t.Call.StaticCallee()
+			if sf == nil {
+				ok = false
+				continue
+			}
+			if inModule(sf) {
+				if inner != nil {
+					ok = false
+				}
+				inner = t
+			}
+		case *ssa.Return:
+			ret = t
+		case *ssa.Extract, *ssa.MakeInterface, *ssa.ChangeType, *ssa.ChangeInterface, *ssa.Convert, *ssa.Slice, *ssa.IndexAddr, *ssa.DebugRef, *ssa.FieldAddr, *ssa.Field:
+		case *ssa.UnOp:
+			if t.Op != token.MUL {
+				ok = false
+			}
+		case *ssa.Alloc:
+			if t.Comment != "varargs" {
+				ok = false
+			}
+		case *ssa.Store:
+			ia, isIA := t.Addr.(*ssa.IndexAddr)
+			if !isIA {
+				ok = false
+				continue
+			}
+			if al, isAl := ia.X.(*ssa.Alloc); !isAl || al.Comment != "varargs" {
+				ok = false
+			}
+		default:
+			ok = false
+		}
+	}
+	if !ok || inner == nil || ret == nil || inner.Call.StaticCallee() == f {
+		return nil
+	}
+	n := inner.Call.Signature().Results().Len()
+	if len(ret.Results) != n {
+		return nil
+	}
+	for i, rv := range ret.Results {
+		if n == 1 {
+			if rv != ssa.Value(inner) {
+				return nil
+			}
+			continue
+		}
+		ex, isEx := rv.(*ssa.Extract)
+		if !isEx || ex.Tuple != ssa.Value(inner) || ex.Index != i {
+			return nil
+		}
+	}
+	return inner
+}
+
+// e6SubstParams: replace `$name` tokens of a fingerprint line by the given renderings
+func e6SubstParams(s string, m map[string]string) string {
+	if len(m) == 0 || !strings.Contains(s, "$") {
+		return s
+	}
+	var b strings.Builder
+	for i := 0; i < len(s); {
+		if s[i] != '$' {
+			b.WriteByte(s[i])
+			i++
+			continue
+		}
+		j := i + 1
+		for j < len(s) && (s[j] == '_' || s[j] >= '0' && s[j] <= '9' || s[j] >= 'a' && s[j] <= 'z' || s[j] >= 'A' && s[j] <= 'Z') {
+			j++
+		}
+		if rep, ok := m[s[i+1:j]]; ok {
+			b.WriteString(rep)
+		} else {
+			b.WriteString(s[i:j])
+		}
+		i = j
+	}
+	return b.String()
+}
+
+// edgeConds: the guards of the edge pred→to: those of pred plus, when pred ends in an If, the outcome that leads to `to`
+func (e *e6Ctx) edgeConds(pred, to *ssa.BasicBlock, pre map[string]bool) string {
+	cs := e.conds(pred, pre)
+	if iff := ifOf(pred); iff != nil && len(pred.Succs) == 2 && pred.Succs[0] != pred.Succs[1] {
+		if _, is := e.errorGuard(iff); !is {
+			cs = mergeConds(cs, "[if "+canonCond(e.path(iff.Cond), pred.Succs[0] == to)+"] ")
+		}
+	}
+	return cs
+}
+
+// mergeConds: conjunction of two rendered guard prefixes ("[if a && b] ")
+func mergeConds(a, b string) string {
+	split := func(s string) []string {
+		s = strings.TrimSpace(s)
+		if s == "" {
+			return nil
+		}
+		s = strings.TrimSuffix(strings.TrimPrefix(s, "[if "), "]")
+		return strings.Split(s, " && ")
+	}
+	cs := append(split(a), split(b)...)
+	if len(cs) == 0 {
+		return ""
+	}
+	sort.Strings(cs)
+	cs = dedupe(cs)
+	return "[if " + strings.Join(cs, " && ") + "] "
 }
